@@ -7,6 +7,8 @@ import (
 	"fmt"
 	"math/rand"
 	"os"
+	"path/filepath"
+	"strings"
 )
 
 // ---------------------------------------------------------------------------------------------
@@ -207,7 +209,7 @@ func (g *genState) newClient(malformed bool) {
 	id := g.nclient
 	g.nclient++
 	g.add(Step{Op: "sub", C: id, TS: ts, Tok: g.r.Intn(3), CK: g.r.Intn(2)})
-	g.subbed[id] = true
+	g.subbed[id] = ts.S >= 0 || ts.T == TConfig
 	g.cts[id] = ts
 }
 
@@ -215,7 +217,29 @@ func (g *genState) someClient() int {
 	if g.nclient == 0 {
 		return 0
 	}
+	// mostly a client that holds a subscription
+	if g.r.Intn(8) > 0 {
+		var live []int
+		for id := 0; id < g.nclient; id++ {
+			if g.subbed[id] {
+				live = append(live, id)
+			}
+		}
+		if len(live) > 0 {
+			return live[g.r.Intn(len(live))]
+		}
+	}
 	return g.r.Intn(g.nclient)
+}
+
+func (g *genState) resub(c int) {
+	g.add(Step{Op: "sub", C: c})
+	g.subbed[c] = true
+}
+
+func (g *genState) unsub(c int) {
+	g.add(Step{Op: "unsub", C: c})
+	g.subbed[c] = false
 }
 
 func genCase(r *rand.Rand, flavour string, n int) ([]Step, bool) {
@@ -232,6 +256,122 @@ func genCase(r *rand.Rand, flavour string, n int) ([]Step, bool) {
 	for len(g.steps) < n {
 		x := r.Intn(100)
 		switch flavour {
+		case "resume":
+			// two or three clients share one subject (the topic buffer stays alive); a client that has
+			// consumed everything drops its subscription and subscribes again with its index
+			if g.nclient < 2+r.Intn(2) {
+				ts := TS{0, 0}
+				if g.nclient > 0 {
+					ts = g.cts[0]
+				} else {
+					ts = []TS{{0, 0}, {0, 0}, {1, 0}, {2, -1}, {2, 0}, {0, 1}}[r.Intn(6)]
+				}
+				id := g.nclient
+				g.nclient++
+				g.add(Step{Op: "sub", C: id, TS: ts, Tok: r.Intn(3), CK: r.Intn(2)})
+				g.cts[id], g.subbed[id] = ts, true
+				continue
+			}
+			switch {
+			case x < 25:
+				// a write that (mostly) touches the shared subject
+				w := g.write(false)
+				ts := g.cts[0]
+				if r.Intn(3) > 0 {
+					switch ts.T {
+					case 0:
+						w = &Write{K: "svc", Node: pick(r, nodes...), SID: pick(r, "web1", "web2"), Name: svcNames[ts.S], Port: 80 + 8000*r.Intn(2), Meta: pick(r, "", "a", "b")}
+						g.insts[w.Node+"/"+w.SID] = true
+					case 1:
+						w = &Write{K: "svc", Node: pick(r, nodes...), SID: "webp", Name: "webp", Kind: "proxy", Dest: svcNames[ts.S], Port: 80 + 8000*r.Intn(2), Meta: pick(r, "", "a", "b")}
+						g.insts[w.Node+"/"+w.SID] = true
+					default:
+						w = &Write{K: "cfg", Name: pick(r, "web", "api"), Proto: pick(r, "http", "tcp", "grpc")}
+					}
+				}
+				if g.queued >= 40 {
+					g.pub()
+				}
+				g.add(Step{Op: "commit", W: w})
+				g.queued++
+				if r.Intn(4) > 0 {
+					g.pub()
+				}
+			case x < 35:
+				g.pub()
+			case x < 75:
+				c := g.someClient()
+				for k := 1 + r.Intn(3); k > 0; k-- {
+					g.add(Step{Op: "next", C: c})
+				}
+			case x < 90:
+				c := g.someClient()
+				for g.queued > 0 && r.Intn(4) > 0 {
+					g.pub()
+				}
+				for k := 6; k > 0; k-- {
+					g.add(Step{Op: "next", C: c})
+				}
+				if r.Intn(2) == 0 {
+					g.unsub(c)
+					if r.Intn(3) == 0 {
+						g.commit(false)
+						if r.Intn(2) == 0 {
+							g.pub()
+						}
+					}
+				}
+				g.resub(c)
+			case x < 96:
+				g.unsub(g.someClient())
+			default:
+				g.add(Step{Op: "evict", TS: g.cts[0]})
+			}
+			continue
+		case "restorebuf":
+			// several subscribers share one subject; everything is published before the restore; one of
+			// them resubscribes while the others still hold the topic buffer
+			switch {
+			case x < 22:
+				g.commit(false)
+				g.pub()
+			case x < 34:
+				if g.nclient < 4 {
+					ts := TS{0, 0}
+					if g.nclient > 0 {
+						ts = g.cts[0]
+					} else if r.Intn(3) == 0 {
+						ts = allTS[r.Intn(len(allTS))]
+					}
+					id := g.nclient
+					g.nclient++
+					g.add(Step{Op: "sub", C: id, TS: ts, Tok: r.Intn(3), CK: r.Intn(2)})
+					g.cts[id] = ts
+					g.subbed[id] = true
+				} else {
+					g.resub(g.someClient())
+				}
+			case x < 80:
+				g.add(Step{Op: "next", C: g.someClient()})
+			case x < 86:
+				for g.queued > 0 {
+					g.pub()
+				}
+				g.add(Step{Op: "restore", R: g.restoreContent()})
+				if g.nclient > 0 {
+					c := g.someClient()
+					g.add(Step{Op: "next", C: c})
+					g.resub(c)
+					g.add(Step{Op: "next", C: c})
+					g.add(Step{Op: "next", C: c})
+					g.add(Step{Op: "next", C: c})
+				}
+			case x < 92:
+				g.unsub(g.someClient())
+			default:
+				g.add(Step{Op: "evict", TS: allTS[r.Intn(len(allTS))]})
+			}
+			continue
 		case "gap":
 			// bursts: several commits, a subscription in the gap, then publication and consumption
 			switch {
@@ -242,14 +382,14 @@ func genCase(r *rand.Rand, flavour string, n int) ([]Step, bool) {
 				if g.nclient < 5 && r.Intn(2) == 0 {
 					g.newClient(false)
 				} else if g.nclient > 0 {
-					g.add(Step{Op: "sub", C: g.someClient()})
+					g.resub(g.someClient())
 				}
 			case x < 55:
 				g.pub()
 			case x < 90:
 				g.add(Step{Op: "next", C: g.someClient()})
 			case x < 95:
-				g.add(Step{Op: "unsub", C: g.someClient()})
+				g.unsub(g.someClient())
 			default:
 				g.add(Step{Op: "evict", TS: allTS[r.Intn(len(allTS))]})
 			}
@@ -264,14 +404,14 @@ func genCase(r *rand.Rand, flavour string, n int) ([]Step, bool) {
 				if g.nclient < 5 {
 					g.newClient(false)
 				} else {
-					g.add(Step{Op: "sub", C: g.someClient()})
+					g.resub(g.someClient())
 				}
 			case x < 47:
-				g.add(Step{Op: "sub", C: g.someClient()})
+				g.resub(g.someClient())
 			case x < 90:
 				g.add(Step{Op: "next", C: g.someClient()})
 			case x < 95:
-				g.add(Step{Op: "unsub", C: g.someClient()})
+				g.unsub(g.someClient())
 			default:
 				g.add(Step{Op: "evict", TS: allTS[r.Intn(len(allTS))]})
 			}
@@ -286,10 +426,10 @@ func genCase(r *rand.Rand, flavour string, n int) ([]Step, bool) {
 			if g.nclient < 5 {
 				g.newClient(malformed)
 			} else {
-				g.add(Step{Op: "sub", C: g.someClient()})
+				g.resub(g.someClient())
 			}
 		case x < 56:
-			g.add(Step{Op: "sub", C: g.someClient()})
+			g.resub(g.someClient())
 		case x < 88:
 			c := g.someClient()
 			if malformed && r.Intn(10) == 0 {
@@ -297,7 +437,7 @@ func genCase(r *rand.Rand, flavour string, n int) ([]Step, bool) {
 			}
 			g.add(Step{Op: "next", C: c})
 		case x < 92:
-			g.add(Step{Op: "unsub", C: g.someClient()})
+			g.unsub(g.someClient())
 		case x < 95:
 			g.add(Step{Op: "evict", TS: allTS[r.Intn(len(allTS))]})
 		default:
@@ -326,6 +466,8 @@ func main() {
 	replay := flag.String("replay", "", "replay file: {steps, cache, drain} or a VIOLATION replay written by the check")
 	mode := flag.String("mode", "sched", "sched (deterministic schedules) | free (free-running goroutines, final equality only)")
 	ncases := flag.Int("n", 0, "number of cases (default by tier)")
+	corpus := flag.String("corpus", "", "directory of replay files executed before the generated cases")
+	asJSON := flag.Bool("json", false, "with -replay: print the executed case as one JSON line")
 	flag.BoolVar(&debugVals, "vals", false, "include the interned value table in every case (debugging)")
 	flag.Parse()
 
@@ -342,6 +484,10 @@ func main() {
 			rf = wrap.Case
 		}
 		c := runCase(0, "replay", rf.Steps, rf.Cache, rf.Drain)
+		if *asJSON {
+			must(json.NewEncoder(os.Stdout).Encode(c))
+			return
+		}
 		for i, st := range c.Steps {
 			j, _ := json.Marshal(st)
 			fmt.Printf("%3d %s\n", i, j)
@@ -379,17 +525,36 @@ func main() {
 	}
 
 	n := *ncases
-	if n == 0 {
+	if n < 0 {
+		n = 0
+	} else if n == 0 {
 		n = 400
 		if *tier == "thorough" {
 			n = 6000
 		}
 	}
-	flavours := []string{"mixed", "gap", "eager", "restore", "acl", "malformed", "mixed", "gap", "eager", "acl"}
+	if *corpus != "" {
+		ents, _ := os.ReadDir(*corpus)
+		for k, e := range ents {
+			if e.IsDir() || !strings.HasSuffix(e.Name(), ".json") {
+				continue
+			}
+			b, err := os.ReadFile(filepath.Join(*corpus, e.Name()))
+			must(err)
+			var rf replayFile
+			must(json.Unmarshal(b, &rf))
+			must(enc.Encode(runCase(100000+k, "corpus:"+e.Name(), rf.Steps, rf.Cache, rf.Drain)))
+		}
+	}
+	flavours := []string{"mixed", "gap", "eager", "restore", "acl", "malformed", "restorebuf", "resume", "eager", "gap"}
 	r := rand.New(rand.NewSource(*seed))
 	for i := 0; i < n; i++ {
 		fl := flavours[i%len(flavours)]
-		steps, cache := genCase(r, fl, 10+r.Intn(22))
+		n := 10 + r.Intn(22)
+		if fl == "resume" || fl == "restorebuf" {
+			n = 30 + r.Intn(30)
+		}
+		steps, cache := genCase(r, fl, n)
 		must(enc.Encode(runCase(i, fl, steps, cache, true)))
 	}
 }
